@@ -709,9 +709,7 @@ def enumerate_tls(st, rng, n, part=0, parts=1):
                 add("POST", label, op)
             for label, op in T.fin_catalogue()[:6]:
                 add("POST_FIN", label, op)
-            descs_ = descs
         else:
-            body = T.split_tls(info["ch"])[0][1] if hasattr(T, "split_tls") else None
             from .c05_lib import split_tls
 
             body = split_tls(info["ch"])[0][1]
@@ -739,7 +737,6 @@ def enumerate_tls(st, rng, n, part=0, parts=1):
                 for label, op in T.cert_catalogue()[:8]:
                     add("CCERT", label, op)
     else:
-        stage_msgs = []
         if "sh" in info:
             from .c05_lib import split_tls
 
